@@ -510,7 +510,8 @@ def check_C03(ctx):
 
 def check_C04(ctx):
     nd, ni = sizes(ctx, (108, 22), (900, 40))
-    lexer_check(ctx, dict(p_ctx=0.7, max_rules=4, max_depth=2, kinds=['simple', 'inf:ret']), nd, ni, ["full"],
+    lexer_check(ctx, dict(p_ctx=0.7, max_rules=4, max_depth=2, kinds=['simple', 'simple', 'inf:ret', 'inf:swret', 'inf:sw']),
+                nd, ni, ["full"],
                 require=lambda d: any(r['ctx'] for _, r in lexdef.iter_rules(d)))
 
 
@@ -647,6 +648,42 @@ def check_C15(ctx):
     lexer_check(ctx, dict(max_rules=4, max_depth=2, p_named=0.8, p_fallible=0.3, p_template=0.35,
                           kinds=['inf:sw', 'inf:swret', 'simple', 'simple', 'inf:ret', 'inf:cont', 'skip', 'fal:ret']),
                 nd, ni, ["full"], clone=True)
+    long_clone(ctx, 6000 if ctx.tier == "quick" else 60000)
+
+
+def long_clone(ctx, n):
+    """C15 on long inputs: a clone taken after the first items and resumed only after the original has run to the
+    end (thousands of characters and many token boundaries later) must still yield the original's remaining items"""
+    rng = random.Random(ctx.seed + 15)
+    d = [('rule', {'re': ('plus', ('set', [(0x61, 0x63)])), 'ctx': None, 'kind': 'simple:1'}),
+         ('rule', {'re': ('cat', ('char', 0x61), ('cat', ('star', ('char', 0x62)), ('char', 0x64))), 'ctx': None, 'kind': 'simple:2'}),
+         ('rule', {'re': ('char', 0x20), 'ctx': None, 'kind': 'skip'}),
+         ('rule', {'re': ('plus', ('set', [(0x30, 0x39)])), 'ctx': ('char', 0x20), 'kind': 'simple:3'})]
+    text = []
+    while len(text) < n:
+        text += rng.choice([[0x61, 0x62, 0x63], [0x61, 0x62, 0x62, 0x64], [0x31, 0x32], [0x63], [0x3f]]) + [0x20]
+    inputs = [(ct, text, cl) for ct in (0, 2) for cl in (1, 3, 40)]
+    c = Case(0, d, inputs)
+    run_impl([c], os.path.join(BUILD, "work_C15long"), run_timeout_ms=120000)
+    shutil.rmtree(os.path.join(BUILD, "work_C15long"), ignore_errors=True)
+    if c.compile_error is not None:
+        ctx.broken("long-clone", "the long-input clone program does not compile: " + c.compile_error[-800:])
+        return
+    for i, (ct, w, cl) in enumerate(inputs):
+        I = lines_of(c.impl_runs.get(i, []), "I")
+        C = lines_of(c.impl_runs.get(i, []), "C")
+        items = [l for l in I if not l.startswith("A ")]
+        want = [l for l in items[cl:] if l != "N"]
+        got = [l for l in C if not l.startswith("A ") and l != "N"]
+        ctx.coverage["evaluations"] += 1
+        if lexcheck.p_counts(I) or lexcheck.p_counts(C) or want != got:
+            k = next((j for j in range(min(len(want), len(got))) if want[j] != got[j]), min(len(want), len(got)))
+            ctx.violation("clone-long-input", {"definition": lexdef.rust_lexer(c.name, c.d), "input_length": len(w),
+                                               "constructor": ct, "clone_at": cl,
+                                               "first_difference_at_item": k, "original_there": want[k:k + 3],
+                                               "clone_there": got[k:k + 3], "problems": (lexcheck.p_counts(I) + lexcheck.p_counts(C))[:3]})
+            break
+    ctx.coverage.setdefault("distribution", {})["long_clone_chars"] = n
 
 
 def four_constructors(ctx, nd, ni):
